@@ -100,7 +100,7 @@ def match_known(prop, v, known):
 def write_replay(prop, v):
     d = VERIF / "replays" / prop
     d.mkdir(parents=True, exist_ok=True)
-    key = re.sub(r"[^A-Za-z0-9_.-]+", "_", v["signature"])[:80] + "_" + __import__("hashlib").sha1(
+    key = re.sub(r"[^A-Za-z0-9_-]+", "_", v["signature"])[:80] + "_" + __import__("hashlib").sha1(
         json.dumps(v["case"], sort_keys=True).encode()
     ).hexdigest()[:8]
     path = d / f"{key}.json"
